@@ -165,6 +165,13 @@ def cases(rng, tier, stats):
             continue
         lines = [run_req(s1, spec=1), run_req(s2, spec=1), run_req(s1 + s2, spec=1)]
         out.append(C.Case("compose", lines, cmp_run(line=True), compose_oracle, info={"p1": s1, "p2": s2, "p1_lines": s1.count("\n")}))
+    # the one residue of P1's control flow that a P2 can observe: an else-less conditional whose branch ran leaves its
+    # flag on the interpreter's stack for ever; a P2 that *begins* with a stray `অথবা` (alone: "অথবা without যদি") is then
+    # taken for the else of that conditional and skipped.  KNOWN-FINDING C19-stray-else, identified by this input
+    k1 = 'যদি সত্য {\n}\nদেখাও "ক";\n'
+    k2 = 'অথবা {\n দেখাও "খ";\n}\nদেখাও "গ";\n'
+    out.append(C.Case("C19-stray-else", [run_req(k1), run_req(k2), run_req(k1 + k2)], cmp_run(line=True), compose_oracle,
+                      info={"p1": k1, "p2": k2, "p1_lines": k1.count("\n")}))
     stats["pairs"] = len(out)
     stats["pairs_skipped_p1_fails"] = skipped
     return out
